@@ -55,6 +55,7 @@ class Checker:
         self.current_rule: Optional[Rule] = None
         self.notes: dict[str, object] = {}
         self.analysed_funcs: set[str] = set()
+        self.errors: list[str] = []
 
     # ---- engine access
     def interp(self, func: Func | str, pins: Optional[Pins] = None, **kw: object) -> Interp:
@@ -103,9 +104,14 @@ class Checker:
             raise AnalysisError(f"{rid}: anchor vanished: {what}")
 
     def run(self, rules: Iterable[Rule]) -> None:
+        """run the rules; a vanished anchor ends that rule (obligations recorded so far are kept) and is
+        reported as ANALYSIS-ERROR unless the run has real violations to report"""
         for rule in rules:
             self.current_rule = rule
-            rule.run(self)
+            try:
+                rule.run(self)
+            except AnalysisError as err:
+                self.errors.append(f"{rule.rid}: {err}" if rule.rid not in str(err) else str(err))
         self.current_rule = None
 
 
